@@ -204,6 +204,26 @@ def boc_part(R, S, rng, quick):
             mut = data[:rng.randrange(4, min(len(data), 30))] + rng.randbytes(rng.randrange(0, 200))
             S.run('boc-garbage', 'from_boc', len(mut), lambda: Cell.from_boc(mut), dict(W0, boc=mut))
             R.case(mon.fp('bocg', mut))
+    # a cell the parser has to refuse (unknown exotic type, pruned branch with references, Merkle proof with a wrong stored hash, library cell of the wrong size)
+    # sitting above a 2-way ladder: refusing it - formatting the error included - must not walk the shared DAG below once per path
+    for lv in ([16, 30, 60] if quick else [8, 16, 24, 40, 60, 120]):
+        lad = gen.ladder(lv, 2)
+        order = rc.topo_order([lad])
+        size = rc.minbytes(len(order) + 1)
+        idx_of = {c.hash: i + 1 for i, c in enumerate(order)}
+        blobs = [c.serialize(idx_of, size) for c in order]
+        one = (1).to_bytes(size, 'big')
+        for what, root_blob in (('unknown-exotic-type', bytes([0x08 | 2, 2, 7]) + one + one),
+                                ('pruned-branch-with-refs', bytes([0x08 | 2, 2 * 36, 1, 1]) + bytes(34) + one + one),
+                                ('merkle-proof-wrong-hash', bytes([0x08 | 1, 2 * 35, 3]) + bytes(34) + one),
+                                ('library-cell-wrong-size', bytes([0x08 | 1, 2 * 5, 2]) + bytes(4) + one),
+                                ('ordinary-with-5-refs', bytes([5, 0]) + one * 5)):
+            data = b''.join([root_blob] + blobs)
+            off = rc.minbytes(len(data))
+            hdr = rc.MAGIC_GENERIC + bytes([size, off]) + (len(order) + 1).to_bytes(size, 'big') + (1).to_bytes(size, 'big') + (0).to_bytes(size, 'big') + len(data).to_bytes(off, 'big') + (0).to_bytes(size, 'big')
+            boc = hdr + data
+            S.run('boc-invalid-cell-above-ladder', 'from_boc', len(boc), lambda: Cell.from_boc(boc), {'levels': lv, 'invalid_root': what, 'boc': boc if len(boc) < 900 else None})
+            R.case(mon.fp('bocinv', lv, what))
 
 
 def boc_header_product(R, S, rng, quick):
@@ -472,6 +492,7 @@ def run(R):
         R.floor('calls_ladder2', 20)
         R.floor('calls_boc-header-product', 2000)
         R.floor('calls_tl-nested-object-lists', 8)
+        R.floor('calls_boc-invalid-cell-above-ladder', 10)
 
 
 def replay(R, w, rec):
